@@ -65,7 +65,8 @@ FLOORS = {
               "lookups_compared": 30000, "reused_relays_seen": 4000, "object_identity_checks": 4000,
               "collections_compared": 1600, "codec_roundtrips": 2000, "empty_documents": 60,
               "unlisted_identity_lookups": 600, "views_recompared_after_lookups": 350, "circ_events_with_paths": 150,
-              "unlisted_entries_inspected": 500,
+              "unlisted_entries_inspected": 500, "reused_relays_with_only_dirport_changed": 150,
+              "reused_relays_with_only_orport_changed": 100, "reused_relays_with_only_ipv4_changed": 100,
               "reach:txtorcon.torstate:TorState._create_router": 9000,
               "reach:txtorcon.torstate:TorState._update_network_status": 400,
               "reach:txtorcon.torstate:TorState.router_from_id": 30000},
@@ -73,7 +74,8 @@ FLOORS = {
                  "lookups_compared": 1500000, "reused_relays_seen": 250000, "object_identity_checks": 250000,
                  "collections_compared": 80000, "codec_roundtrips": 100000, "empty_documents": 3000,
                  "unlisted_identity_lookups": 30000, "views_recompared_after_lookups": 18000, "circ_events_with_paths": 7000,
-                 "unlisted_entries_inspected": 25000,
+                 "unlisted_entries_inspected": 25000, "reused_relays_with_only_dirport_changed": 8000,
+                 "reused_relays_with_only_orport_changed": 5000, "reused_relays_with_only_ipv4_changed": 5000,
                  "reach:txtorcon.torstate:TorState._create_router": 500000,
                  "reach:txtorcon.torstate:TorState._update_network_status": 25000},
 }
@@ -166,7 +168,14 @@ def gen_case(rnd):
                     r["nick"] = rnd.choice(knobs["nicks"])
                 if rnd.random() < 0.05:
                     r["ip"] = "%d.%d.%d.%d" % (rnd.randint(1, 223), rnd.randint(0, 255), rnd.randint(0, 255), rnd.randint(1, 254))
-                if rnd.random() < 0.05:
+                # the r-line fields change independently: only the DirPort (9030 -> 0 is what a relay
+                # closing its directory port looks like), only the ORPort, both, (above) only the address
+                x = rnd.random()
+                if x < 0.06:
+                    r["dirport"] = rnd.choice([p for p in (0, 80, 9030, rnd.randint(1, 65535)) if p != r["dirport"]])
+                elif x < 0.10:
+                    r["orport"] = rnd.choice([p for p in (443, 9001, 9002, rnd.randint(1, 65535)) if p != r["orport"]])
+                elif x < 0.13:
                     r["orport"], r["dirport"] = rnd.randint(1, 65535), rnd.choice([0, rnd.randint(1, 65535)])
                 mutate_optional(rnd, knobs, r)
         doc = [copy_relay(r) for r in pool.values() if rnd.random() < knobs["present"]]
@@ -406,8 +415,14 @@ def judge(st, docs, k, prev, rec, V, flags, asked=(), phase=None):
                 continue
             for what, a, b in (("nick", o["nick"], r["nick"]), ("ipv4", o["ip"], r["ip"]),
                                ("a-lines", o["a"], r["a"]), ("w-line", o["bw"], r["bw"]),
-                               ("ports", (o["orport"], o["dirport"]), (r["orport"], r["dirport"]))):
+                               ("orport", o["orport"], r["orport"]), ("dirport", o["dirport"], r["dirport"])):
                 if a != b:
+                    if what in ("ipv4", "orport", "dirport"):
+                        only = [w for w in ("ipv4", "orport", "dirport")
+                                if {"ipv4": o["ip"], "orport": o["orport"], "dirport": o["dirport"]}[w]
+                                != {"ipv4": r["ip"], "orport": r["orport"], "dirport": r["dirport"]}[w]]
+                        if only == [what]:
+                            rec.count("reused_relays_with_only_%s_changed" % what)
                     rec.seen("relay_changes", what + (":dropped" if not b and b != 0 else (":added" if not a and a != 0 else ":changed")))
             for f in set(o["flags"]) ^ set(r["flags"]):
                 if f in ("Guard", "Authority"):
